@@ -22,9 +22,9 @@ def main():
     prop, n = sys.argv[1], sys.argv[2]
     checks = sys.argv[3:] or [prop]
     rnd = ""
-    if n.startswith("r2:"):
-        rnd, n = "r2", n[3:]
-    out = "/tmp/mut/%s/out%s/m%s" % (prop, "2" if rnd else "", n)
+    if n[:3] in ("r2:", "r3:"):
+        rnd, n = n[:2], n[3:]
+    out = "/tmp/mut/%s/out%s/m%s" % (prop, rnd[1:] if rnd else "", n)
     patch = os.path.join(out, "patch.diff")
     meta = json.load(open(os.path.join(out, "meta.json")))
     readme = ""
